@@ -2091,3 +2091,157 @@ func ruleErrorPolarity(p *Prog, r *Out) {
 		r.bad("error tests found", "?", fmt.Sprintf("only %d error tests found", tests))
 	}
 }
+
+func init() {
+	register(&Rule{
+		Name: "late-and-graceful-frames", Props: []string{"C06", "C08", "C09", "C02", "C18", "C01"}, Engine: "AST", Floor: 5,
+		Doc: "frames that arrive late, or say goodbye, are treated as the RFC asks: a received SETTINGS frame is applied and acknowledged on the stream loop, after the INITIAL_WINDOW_SIZE delta (the acknowledgement says the values are in force), never from the read loop; a GOAWAY(NO_ERROR) from the peer does not end the server's read loop; a WINDOW_UPDATE on an id below the highest accepted one that is no longer remembered is ignored, not a connection error; the client runs every header block it has no request for through its decoder before dropping it",
+		Run: ruleLateAndGraceful,
+	})
+}
+
+func ruleLateAndGraceful(p *Prog, r *Out) {
+	hs, rl := p.decl("(*serverConn).handleStreams"), p.decl("(*serverConn).readLoop")
+	if hs == nil || rl == nil {
+		r.undecided("server loops", "?", "handleStreams/readLoop no longer resolve")
+		return
+	}
+	r.fn("(*serverConn).handleStreams", "(*serverConn).readLoop", "(*Conn).dispatch", "(*Conn).skipHeaderBlock")
+	// SETTINGS: applied and acknowledged on the stream loop, after the delta
+	inRead := false
+	inspectCalls(rl.Body, func(c *ast.CallExpr) {
+		if p.calleeOf(c) == "(*serverConn).handleSettings" {
+			inRead = true
+		}
+	})
+	afterDelta := false
+	ast.Inspect(hs.Body, func(n ast.Node) bool {
+		cc, ok := n.(*ast.CaseClause)
+		if !ok || len(cc.List) != 1 {
+			return true
+		}
+		if v, okv := p.intConst(cc.List[0]); !okv || v != 4 {
+			return true
+		}
+		deltaIdx, ackIdx, acks := -1, -1, 0
+		for i, s := range cc.Body {
+			if ifs, ok := s.(*ast.IfStmt); ok && squash(p.text(ifs.Cond)) == "st.hasWindowSize" {
+				deltaIdx = i
+			}
+			inspectCalls(s, func(c *ast.CallExpr) {
+				if p.calleeOf(c) == "(*serverConn).handleSettings" {
+					acks++
+					ackIdx = i
+				}
+			})
+		}
+		if deltaIdx >= 0 && ackIdx > deltaIdx && acks == 1 {
+			afterDelta = true
+		}
+		return true
+	})
+	r.check(!inRead && afterDelta, "SETTINGS acknowledged after it is applied, by the loop that applies it", p.pos(hs.Pos()), "stream loop: delta to the open streams, then handleSettings (copy, encoder, ACK); nothing in the read loop", "a received SETTINGS frame is acknowledged (or its table size applied) from the read loop, or before the INITIAL_WINDOW_SIZE delta reaches the open streams: DATA sent after the acknowledgement still uses the old windows (RFC 7540 s6.5.3), and the encoder is touched by a goroutine that does not own it")
+	// GOAWAY(NO_ERROR) from the peer
+	graceful := false
+	ast.Inspect(rl.Body, func(n ast.Node) bool {
+		cc, ok := n.(*ast.CaseClause)
+		if !ok || len(cc.List) != 1 {
+			return true
+		}
+		if v, okv := p.intConst(cc.List[0]); !okv || v != 7 {
+			return true
+		}
+		sets, guarded := 0, 0
+		pm := p.pmFor(rl)
+		ast.Inspect(cc, func(m ast.Node) bool {
+			as, ok := m.(*ast.AssignStmt)
+			if !ok || len(as.Lhs) != 1 || p.text(as.Lhs[0]) != "err" {
+				return true
+			}
+			sets++
+			for _, g := range p.knownFacts(pm, as) {
+				if g.Val && squash(p.text(g.Cond)) == "ga.Code()!=NoError" {
+					guarded++
+				}
+				if !g.Val && squash(p.text(g.Cond)) == "ga.Code()==NoError" {
+					guarded++
+				}
+			}
+			return true
+		})
+		graceful = sets == guarded
+		return true
+	})
+	r.check(graceful, "a graceful GOAWAY from the peer does not end the connection", p.pos(rl.Pos()), "err is set only for a GOAWAY with an error code", "the server's read loop stops on a GOAWAY(NO_ERROR): the peer only announced that it opens no more streams, and the responses it is still waiting for are cut off")
+	// late WINDOW_UPDATE below lastID
+	lateWU := false
+	ast.Inspect(hs.Body, func(n ast.Node) bool {
+		ifs, ok := n.(*ast.IfStmt)
+		if !ok {
+			return true
+		}
+		c, okc := p.canonCmp(ifs.Cond, nil)
+		if !okc || c.Op != "le" || !c.L.eq(Lin{T: map[string]int64{"fr.Stream()": 1, "sc.lastID": -1}, C: 1}) {
+			return true
+		}
+		for i, s := range ifs.Body.List {
+			in, ok := s.(*ast.IfStmt)
+			if !ok || squash(p.text(in.Cond)) != "fr.Type()==FrameWindowUpdate" || len(in.Body.List) != 1 {
+				continue
+			}
+			if b, ok := in.Body.List[0].(*ast.BranchStmt); ok && b.Tok == token.CONTINUE {
+				// and it precedes the GOAWAY
+				for _, t := range ifs.Body.List[i+1:] {
+					if es, ok := t.(*ast.ExprStmt); ok {
+						if cl, ok := es.X.(*ast.CallExpr); ok && p.calleeOf(cl) == "(*serverConn).writeGoAway" {
+							lateWU = true
+						}
+					}
+				}
+			}
+		}
+		return true
+	})
+	r.check(lateWU, "a WINDOW_UPDATE on a forgotten closed stream is ignored", p.pos(hs.Pos()), "id < lastID: WINDOW_UPDATE -> continue; else GOAWAY", "a WINDOW_UPDATE on an id below the highest accepted one that has dropped out of the closed-stream memory is answered with GOAWAY(PROTOCOL_ERROR): RFC 7540 s5.1 lets it trail a closed stream, and a peer with many requests in flight sends such frames")
+	// client: unknown-stream header blocks go through the decoder
+	if dp := p.decl("(*Conn).dispatch"); dp != nil {
+		early, skipping := 0, 0
+		for _, s := range dp.Body.List {
+			ifs, ok := s.(*ast.IfStmt)
+			if !ok {
+				continue
+			}
+			t := squash(p.text(ifs.Cond))
+			if t != "!ok" && !strings.HasPrefix(t, "!r.acquireFor(") {
+				continue
+			}
+			early++
+			if res := firstReturn(ifs.Body); len(res) == 1 && squash(p.text(res[0])) == "c.skipHeaderBlock(fr)" {
+				skipping++
+			}
+		}
+		r.check(early == 2 && skipping == 2, "the client decodes header blocks it has no request for", p.pos(dp.Pos()), "return c.skipHeaderBlock(fr) on both early exits of dispatch", fmt.Sprintf("%d of the %d early exits of dispatch (no waiter / waiter gone) hand the frame to skipHeaderBlock: a response header block for a stream the client gave up on never reaches the HPACK decoder, the connection's dynamic table misses its insertions, and the next response is decoded against the wrong table (another response's values, with no error)", skipping, early))
+	}
+	if sk := p.decl("(*Conn).skipHeaderBlock"); sk != nil {
+		loops := false
+		ast.Inspect(sk.Body, func(n ast.Node) bool {
+			if fs, ok := n.(*ast.ForStmt); ok {
+				inspectCalls(fs.Body, func(c *ast.CallExpr) {
+					if p.calleeOf(c) == "(*HPACK).Next" && strings.HasPrefix(p.text(c.Fun), "c.dec.") {
+						loops = true
+					}
+				})
+			}
+			return true
+		})
+		guard := false
+		if len(sk.Body.List) > 0 {
+			if ifs, ok := sk.Body.List[0].(*ast.IfStmt); ok && p.isConjunctionOf(ifs.Cond, "fr.Type()!=FrameHeaders", "fr.Type()!=FrameContinuation") {
+				guard = true
+			}
+		}
+		r.check(loops && guard, "skipHeaderBlock decodes the whole block with the connection's decoder", p.pos(sk.Pos()), "for len(b) > 0 { b, err = c.dec.Next(hf, b) } for HEADERS and CONTINUATION", "skipHeaderBlock no longer runs every HEADERS / CONTINUATION fragment through the connection's decoder")
+	} else {
+		r.bad("skipHeaderBlock decodes the whole block with the connection's decoder", "?", "(*Conn).skipHeaderBlock no longer exists")
+	}
+}
